@@ -18,7 +18,7 @@ TECHNIQUE = "grammar-based design generation + exhaustive input valuations again
 
 
 def budget(tier):
-    return dict(examples=25, seconds=45) if tier == "quick" else dict(examples=300, seconds=420)
+    return dict(examples=70, seconds=45) if tier == "quick" else dict(examples=300, seconds=420)
 
 
 def strategy(tier):
